@@ -50,7 +50,7 @@ VIX = "dask_array.slicing._vindex"
 ARG = "dask_array.creation._arange"
 DB = "dask.blockwise"
 MT = "dask_array._materialize"
-MODS = [MT, "dask_array.slicing._setitem", "dask_array.core._blockwise_funcs", "dask_array.core._conversion", EX, BW, CU, RC, FA, IOB, SB, SU, "dask_array.slicing", CO, NC, TR, XP, SQ, BT, CC, SK, RD, RCM, SHF, VIX, ARG, "dask_array._overlap", "dask_array._map_blocks", "dask_array._chunk", "dask.layers", "dask_array.reductions._sliding_window", "dask_array.manipulation._reshape", "dask_array.reductions._arg_reduction", "dask_array.creation._diag", "dask_array.creation._diagonal", "dask_array.routines._unique", "dask_array.creation._ones_zeros", "dask_array.creation._utils", "dask_array.routines._topk", "dask_array.io._from_graph", "dask_array.manipulation._roll", "dask_array.manipulation._flip", "dask_array.creation._tile", "dask_array.creation._pad", "dask_array.creation._repeat", "dask_array.routines._diff", "dask_array.reductions._cumulative", "dask_array.routines._where", "dask_array.stacking._block", "dask_array.stacking._simple", "dask_array.routines._insert_delete", "dask_array.routines._triangular", "dask_array.routines._outer", "dask_array._ufunc", "dask_array.routines._gradient", DB]
+MODS = [MT, "dask_array.slicing._blocks", "dask_array.slicing._setitem", "dask_array.core._blockwise_funcs", "dask_array.core._conversion", EX, BW, CU, RC, FA, IOB, SB, SU, "dask_array.slicing", CO, NC, TR, XP, SQ, BT, CC, SK, RD, RCM, SHF, VIX, ARG, "dask_array._overlap", "dask_array._map_blocks", "dask_array._chunk", "dask.layers", "dask_array.reductions._sliding_window", "dask_array.manipulation._reshape", "dask_array.reductions._arg_reduction", "dask_array.creation._diag", "dask_array.creation._diagonal", "dask_array.routines._unique", "dask_array.creation._ones_zeros", "dask_array.creation._utils", "dask_array.routines._topk", "dask_array.io._from_graph", "dask_array.manipulation._roll", "dask_array.manipulation._flip", "dask_array.creation._tile", "dask_array.creation._pad", "dask_array.creation._repeat", "dask_array.routines._diff", "dask_array.reductions._cumulative", "dask_array.routines._where", "dask_array.stacking._block", "dask_array.stacking._simple", "dask_array.routines._insert_delete", "dask_array.routines._triangular", "dask_array.routines._outer", "dask_array._ufunc", "dask_array.routines._gradient", DB]
 STUBS = SHIM_LIST + [
     "concatenate3 -> the array model's nested concatenation (called by the repository's own finalize and as a block kernel)",
     "expression classes -> symx.nodes (real methods on cloned code; constructors/tokenize bypassed, structural names); the "
@@ -138,6 +138,27 @@ def user_kernel(f):
     return wrapper
 
 
+class _BlocksNp:
+    def __getattr__(self, k):
+        return getattr(np, k)
+
+    @staticmethod
+    def array(x, *a, **k):
+        from symx.world import _ShimIndexed
+
+        if isinstance(x, (tuple, list)) and any(isinstance(v, (core.SymInt, core.SymReal)) for v in x):
+            out = np.empty(len(x), dtype=object)
+            out[:] = list(x)
+            return out.view(_ShimIndexed)
+        return np.array(x, *a, **k).view(_ShimIndexed)
+
+    @staticmethod
+    def arange(*a, **k):
+        from symx.world import _ShimIndexed
+
+        return np.arange(*a, **k).view(_ShimIndexed)
+
+
 CUR = [None]  # the engine (symbolic or concrete replay) of the running instance body, for user kernels that state obligations
 
 
@@ -153,6 +174,10 @@ def W(E, key="catalog"):
         w.ns[SHF]["np"] = _ShuffleNp()
     # VIndexArray._layer plans with NumPy index arrays, all concrete: its `slice(...)` objects index real ndarrays
     w.ns[VIX]["slice"] = slice
+    # Blocks.chunks / _layer select block sizes and block numbers with np.array(c)[idx] / np.arange(n)[idx], the index
+    # holding the slice objects normalize_index built: arrays that understand those
+    if not isinstance(w.ns["dask_array.slicing._blocks"].get("np"), _BlocksNp):
+        w.ns["dask_array.slicing._blocks"]["np"] = _BlocksNp()
     w.space.reset()
     w.ns[MT]["_LOWER_CACHE"] = {}  # the process-wide lowering cache must not leak between paths / instances
     # unaligned operands are unified under 'coarse' here (no nonlinear cost model: sizes stay unbounded); the default
@@ -172,8 +197,9 @@ def set_policy(w, policy):
 class Prog:
     """a node together with its NumPy meaning and the graph of everything below it"""
 
-    def __init__(self, node, ref, dsk):
+    def __init__(self, node, ref, dsk, site=None):
         self.node, self.ref, self.dsk = node, ref, dsk
+        self.site = site  # call site under which obligations of this program are reported (known_findings.txt keys on it)
 
 
 def source(w, E, tag, blocks, lo=1, shape=None, hi=None, chunks=None, dtype="f8"):
@@ -638,6 +664,60 @@ def p_map_blocks(w, E, p, how="info"):
     return Prog(out.expr, ref, p.dsk)
 
 
+def p_blocks(w, E, p, index):
+    """x.blocks[index] (concrete block index of ints / slices): the concatenation of the selected blocks of the layout x
+    advertises when .blocks is taken"""
+    coll = w.fn(NC, "new_collection")(p.node)
+    chunks = tuple(tuple(c) for c in coll.chunks)
+    # (BlockView.__getitem__ is exactly this call)
+    out = w.fn(NC, "new_collection")(w.fn("dask_array.slicing._blocks", "blocks_getitem")(coll.expr, index))
+    idx = index if isinstance(index, tuple) else (index,)
+    idx = tuple(idx) + (slice(None),) * (len(chunks) - len(idx))
+    sel = [list(range(len(c)))[slice(i, i + 1) if isinstance(i, int) else i] for c, i in zip(chunks, idx)]
+    bnd = [cumsum0(c) for c in chunks]
+
+    def nest(axis, pos):
+        if axis == len(chunks):
+            return p.ref[tuple(slice(bnd[k][j], bnd[k][j + 1]) for k, j in enumerate(pos))]
+        return [nest(axis + 1, pos + (j,)) for j in sel[axis]]
+
+    if any(not s_ for s_ in sel):
+        ref = SArr(tuple(sum(c[j] for j in s_) for c, s_ in zip(chunks, sel)), lambda idx: z3.RealVal(0))  # (no elements)
+    else:
+        ref = concatenate_nested(nest(0, ()))
+    return Prog(out.expr, ref, dict(p.dsk))
+
+
+def _first_rows(b):
+    """user function for map_blocks(chunks=1 per block): the first element of the block along axis 0"""
+    return b[:1]
+
+
+_first_rows = user_kernel(_first_rows)
+
+
+MAP_BLOCKS_DRIFT_SITE = "map_blocks:shape-dependent-function-above-regridded-input"
+
+
+def p_map_first(w, E, p, site=None):
+    """map_blocks(lambda b: b[:1], x, chunks=one row per block of x): one element per block of the layout x advertises when
+    the call is made"""
+    coll = w.fn(NC, "new_collection")(p.node)
+    chunks = tuple(tuple(c) for c in coll.chunks)
+    out = w.fn("dask_array._map_blocks", "map_blocks")(_first_rows, coll, chunks=((1,) * len(chunks[0]),) + chunks[1:], dtype=np.dtype("f8"),
+                                                       meta=np.empty((0,) * len(chunks)))
+    b0 = cumsum0(chunks[0])
+    ref = concatenate_nested([p.ref[b0[j]:b0[j] + 1] for j in range(len(chunks[0]))]) if len(chunks) == 1 else None
+    return Prog(out.expr, ref, dict(p.dsk), site=site)
+
+
+def _add_concrete(w, E, cx, cy, policy="auto"):
+    set_policy(w, policy)
+    x = source(w, E, "x", (len(cx),), chunks=[tuple(cx)])
+    y = source(w, E, "y", (len(cy),), chunks=[tuple(cy)])
+    return p_elemwise(w, operator.add, x, y)
+
+
 def p_view(w, E, p, dtype, order="C"):
     """x.view(dtype, order): the bytes reinterpreted under another item size (shapes are modelled, content is an
     uninterpreted function of the elements it is made of)"""
@@ -705,6 +785,10 @@ def ints_in_range(raw, shape):
     return AND(*[int_in_range(r, n) for r, n in zip(axes, shape) if not hasattr(r, "start")])
 
 
+# programs that demonstrate a recorded finding are run only by the properties the finding is recorded under
+ONLY_FOR = {"map_blocks(first,((x[1,1,4]+y[1,4,1])[::-1])*2)": ("C01", "C02")}
+
+
 # program descriptions: name -> builder(w, E) -> Prog
 def programs(tier):
     q = tier == "quick"
@@ -756,6 +840,16 @@ def programs(tier):
     reg("sum(x2x2,axis=1)[a:b]", lambda w, E: p_slice(w, p_sum(w, source(w, E, "x", (2, 2)), 1), raw_index(E, (F,))), 5)
     reg("sum(x2x2,axis=0)[i]", lambda w, E: p_slice(w, p_sum(w, source(w, E, "x", (2, 2)), 0), raw_index(E, ("i",))), 4)
     reg("sum(x2+y2,axis=0)", lambda w, E: p_sum(w, _add_aligned(w, E, (2,)), 0), 3)
+    # consumers that observe the block grid of an array the optimizer re-grids underneath them
+    REV = ((0, 0, -1),)
+    reg("blocks[::-1]((x[1,1,4]+y[1,4,1])[::-1])", lambda w, E: p_blocks(w, E, p_slice(w, _add_concrete(w, E, (1, 1, 4), (1, 4, 1)), raw_index(E, REV)), slice(None, None, -1)), 3)
+    reg("blocks[0]((x[1,1,4]+y[1,4,1])[::-1])", lambda w, E: p_blocks(w, E, p_slice(w, _add_concrete(w, E, (1, 1, 4), (1, 4, 1)), raw_index(E, REV)), 0), 3)
+    reg("blocks[1]((x2+y3)(unaligned)[::-1])", lambda w, E: p_blocks(w, E, p_slice(w, _add_unaligned(w, E, (2,), (3,)), raw_index(E, REV)), 1), 5)
+    reg("blocks[1:](x3(zero-width chunks allowed)[a:b])", lambda w, E: p_blocks(w, E, p_slice(w, source(w, E, "x", (3,), lo=0), raw_index(E, (F,))), slice(1, None)), 4)
+    reg("blocks[1](x3)", lambda w, E: p_blocks(w, E, source(w, E, "x", (3,)), 1), 1)
+    reg("blocks[1,::-1](x2x2.T)", lambda w, E: p_blocks(w, E, p_transpose(w, source(w, E, "x", (2, 2)), (1, 0)), (1, slice(None, None, -1))), 2)
+    reg("map_blocks(first,((x[1,1,4]+y[1,4,1])[::-1])*2)", lambda w, E: p_map_first(w, E, p_elemwise(w, operator.mul, p_slice(w, _add_concrete(w, E, (1, 1, 4), (1, 4, 1)), raw_index(E, REV)), 2.0), site=MAP_BLOCKS_DRIFT_SITE), 3)
+    reg("map_blocks(first,x3[::-1])", lambda w, E: p_map_first(w, E, p_slice(w, source(w, E, "x", (3,)), raw_index(E, REV))), 2)
     # creation with affine values: slices fold into start/step (Arange._accept_slice)
     reg("arange(start,stop,2;3 blocks)", lambda w, E: p_arange(w, E, 2, 3), 2)
     reg("arange(start,stop,1;3 blocks)[a:b]", lambda w, E: p_slice(w, p_arange(w, E, 1, 3), raw_index(E, (F,))), 4)
@@ -1098,11 +1192,15 @@ def make_instances(tier, prop, body_fn, unit, select=None):
     for name, (fn, cost) in programs(tier).items():
         if select is not None and not select(name):
             continue
+        if name in ONLY_FOR and prop not in ONLY_FOR[name]:
+            continue
 
         def body(E, fn=fn):
             w = W(E)
             prog = fn(w, E)
             E.observe("advertised-chunks", [list(c) for c in prog.node.chunks])
+            if getattr(prog, "site", None):
+                E.tag("site", prog.site)
             body_fn(E, w, prog)
 
         out.append(Instance(f"{prop.lower()}[{name}]", body, dict(program=name), unit=unit, cost=cost, wall_s=900))
